@@ -11,6 +11,7 @@ import (
 	"fmt"
 	"runtime"
 	"sync"
+	"sync/atomic"
 
 	"github.com/aldas/go-modbus-client/server"
 	"github.com/aldas/go-modbus-client/verifshim/vsched"
@@ -33,18 +34,64 @@ type Case struct {
 
 type local struct{ evals, replies int64 }
 
+// useSched: set once the assembler has been seen starting goroutines (see receive)
+var useSched int32
+
+type needSched struct{}
+
 func receive(a *server.ModbusTCPAssembler, chunk []byte) (resp []byte, closeConn bool, pan string) {
 	defer func() {
 		if rec := recover(); rec != nil {
+			if _, again := rec.(needSched); again {
+				panic(rec)
+			}
 			pan = fmt.Sprint(rec)
 		}
 	}()
-	resp, closeConn = a.ReceiveRead(context.Background(), chunk, len(chunk))
+	if atomic.LoadInt32(&useSched) == 0 {
+		// fast path: a plain call. Should the assembler start a goroutine of its own (vsched.FreeGo moves), the result of
+		// this evaluation is not trusted: the evaluation is abandoned (needSched) and repeated under the scheduler, which
+		// from then on runs every call of this process
+		g0 := atomic.LoadInt64(&vsched.FreeGo)
+		func() {
+			defer func() {
+				if rec := recover(); rec != nil {
+					pan = fmt.Sprint(rec)
+				}
+			}()
+			resp, closeConn = a.ReceiveRead(context.Background(), chunk, len(chunk))
+		}()
+		if atomic.LoadInt64(&vsched.FreeGo) == g0 {
+			return
+		}
+		atomic.StoreInt32(&useSched, 1)
+		panic(needSched{})
+	}
+	// under the scheduler's default schedule (no deviations): should the assembler start goroutines of its own they run
+	// in a fixed order instead of racing freely (the process level explores their interleavings)
+	out := vsched.Run(vsched.Config{Choose: func(n int, label string) int { return 0 }}, func() {
+		defer func() {
+			if rec := recover(); rec != nil {
+				pan = fmt.Sprint(rec)
+			}
+		}()
+		resp, closeConn = a.ReceiveRead(context.Background(), chunk, len(chunk))
+	})
+	if out.Crash != "" && pan == "" {
+		pan = out.Crash // a panic in a goroutine the assembler started
+	}
+	if out.Deadlock && pan == "" {
+		pan = fmt.Sprintf("deadlock inside ReceiveRead: %v", out.Blocked)
+	}
 	return
 }
 
 // eval feeds one complete frame (whole) to a fresh assembler.
 func eval(frame []byte, class, mode string, code uint8, res *ev.Result, lc *local) {
+	retryUnderSched(func() { eval1(frame, class, mode, code, res, lc) })
+}
+
+func eval1(frame []byte, class, mode string, code uint8, res *ev.Result, lc *local) {
 	lc.evals++
 	c := Case{Frame: hex.EncodeToString(frame), Handler: mode, Code: code, Class: class}
 	h := &serverx.Handler{Dev: serverx.NewDevice(), Mode: mode, Code: code}
@@ -456,4 +503,25 @@ func main() {
 			"a legal request refused by the library's parser (FC1/FC2 quantities 126..2000, C09-F1) must still get an addressed exception"},
 		Run: run, Replay: replay,
 	})
+}
+
+// retryUnderSched runs f; if f is abandoned because the assembler turned out to start goroutines (needSched), f is run
+// again - this time, and from now on, every ReceiveRead call goes through the scheduler.
+func retryUnderSched(f func()) {
+	again := false
+	func() {
+		defer func() {
+			if rec := recover(); rec != nil {
+				if _, ok := rec.(needSched); ok {
+					again = true
+					return
+				}
+				panic(rec)
+			}
+		}()
+		f()
+	}()
+	if again {
+		f()
+	}
 }
